@@ -85,3 +85,74 @@ func VH_C05_reverse_loc() {
 	}
 	vC05Family(vShard(n), 4)
 }
+
+// ---- API level: reverse-complement preserves the extracted sequence ---------------------
+
+func vACGT(name string, n int) []byte {
+	p := make([]byte, n)
+	for i := range p {
+		p[i] = "acgt"[vIntIn(name+string(rune('0'+i)), 0, 3)]
+	}
+	return p
+}
+
+func vRevCompByte(c byte) byte {
+	// reference complement on the 4-letter alphabet
+	return byte(vIte(c == 'a', 't', vIte(c == 't', 'a', vIte(c == 'c', 'g', 'c'))))
+}
+
+//verif:harness prop=C05 quick=6 thorough=10 timeout=1200
+//verif:bounds API level: sequence of 6 symbolic residues over {a,c,g,t}; one feature: range (symbolic coordinates, quick) or join/order of 2, 3 (odd arity), 4 fixed parts, plain or complemented; gts.Reverse, gts.Complement, Region(), Regions.Complement, Locate: the sequence extracted for the feature from the reverse-complemented record equals the one extracted from the original record; Reverse/Complement are involutions on residues
+func VH_C05_extraction_law() {
+	const L = 6
+	data := vACGT("r", L)
+	var loc Location
+	sh := vShard(6 + 4*vTier())
+	switch sh % 5 {
+	case 0:
+		s := vIntIn("s", 0, L-1)
+		e := vIntIn("e", 1, L)
+		vAssume(s < e)
+		loc = Range(s, e)
+	case 1:
+		loc = Join(Range(0, 2), Range(3, 5))
+	case 2:
+		loc = Join(Range(0, 1), Range(2, 4), Range(5, 6))
+	case 3:
+		loc = Order(Range(0, 1), Range(2, 3), Range(4, 6))
+	default:
+		loc = Join(Range(0, 1), Range(2, 3), Range(4, 5), Point(5))
+	}
+	if sh >= 5 || vChoice("compl", 2) == 1 {
+		loc = loc.Complement()
+	}
+	seq := New(nil, []Feature{{"gene", loc, Props{}}}, data)
+	want := loc.Region().Locate(seq).Bytes()
+	rc := Reverse(Complement(seq))
+	vCover("reverse-complemented")
+	// residues: reverse complement, and an involution
+	for i := 0; i < L; i++ {
+		vAssert("rc-residues", rc.Bytes()[i] == vRevCompByte(data[L-1-i]))
+	}
+	back := Reverse(Complement(rc))
+	for i := 0; i < L; i++ {
+		vAssert("rc-involution", back.Bytes()[i] == data[i])
+	}
+	f2 := rc.Features()[0]
+	got := f2.Loc.Region().Locate(rc).Bytes()
+	vAssert("extracted-length", len(got) == len(want))
+	if len(got) == len(want) {
+		for i := range got {
+			vAssert("extracted-sequence-preserved", got[i] == want[i])
+		}
+	}
+	// Region.Complement reads the reverse complement of what the region reads
+	rcomp := loc.Region().Complement().Locate(seq).Bytes()
+	vAssert("region-complement-length", len(rcomp) == len(want))
+	if len(rcomp) == len(want) {
+		for i := range rcomp {
+			vAssert("region-complement", rcomp[i] == vRevCompByte(want[len(want)-1-i]))
+		}
+	}
+	vObserve("n", len(got))
+}
